@@ -874,6 +874,65 @@ func main() {
 		emitStr("exportVectorLoop", verb, verb != "")
 	}
 
+	// --- REST: route table of RunServer and the status codes of each handler, in source order
+	{
+		var routes []string
+		if fd := funcDecl("main.go", "RunServer"); fd != nil {
+			ast.Inspect(fd.Body, func(x ast.Node) bool {
+				if s, ok := x.(*ast.IfStmt); ok {
+					t := strings.Join(strings.Fields(src(s.Cond)), " ")
+					if strings.Contains(t, "r.URL.Path") {
+						if len(s.Body.List) == 1 {
+							t += " => " + strings.Join(strings.Fields(src(s.Body.List[0])), " ")
+						}
+						routes = append(routes, t)
+					}
+				}
+				return true
+			})
+			for _, call := range findCalls(fd.Body, "Handle") {
+				if len(call.Args) >= 1 {
+					routes = append(routes, "Handle "+src(call.Args[0]))
+				}
+			}
+		}
+		emitStrList("restRoutes", routes, len(routes) > 0)
+		for _, h := range []string{"handleCollections", "handleCollection", "handleInsertRecord", "handleUpdateMetadata", "handleDeleteRecord", "handleSearchRecords"} {
+			var codes []string
+			if fd := method("rest.go", "Server", h); fd != nil {
+				ast.Inspect(fd.Body, func(x ast.Node) bool {
+					if sel, ok := x.(*ast.SelectorExpr); ok {
+						if id, ok := sel.X.(*ast.Ident); ok && id.Name == "http" && strings.HasPrefix(sel.Sel.Name, "Status") {
+							codes = append(codes, sel.Sel.Name)
+						}
+					}
+					return true
+				})
+			}
+			emitStrList("status_"+h, codes, len(codes) > 0)
+		}
+		v := ""
+		if fd := funcDecl("rest.go", "validCollectionName"); fd != nil {
+			v = strings.Join(strings.Fields(src(fd.Body)), " ")
+		}
+		emitStr("validCollectionName", v, v != "")
+		created := false
+		if fd := method("rest.go", "Server", "handleCollections"); fd != nil {
+			created = strings.Contains(src(fd.Body), "validCollectionName(name)")
+		}
+		emitNat("createValidatesName", map[bool]uint64{true: 1, false: 0}[created], true)
+		ctor := ""
+		if fd := funcDecl("collection.go", "NewCollection"); fd != nil {
+			ast.Inspect(fd.Body, func(x ast.Node) bool {
+				if s, ok := x.(*ast.IfStmt); ok && strings.Join(strings.Fields(src(s.Cond)), " ") == "!fileExists" && ctor == "" {
+					ctor = strings.Join(strings.Fields(src(s.Body)), " ")
+				}
+				return true
+			})
+		}
+		emitStr("constructorValidation", ctor, ctor != "")
+	}
+
 	// --- fingerprints (advisory)
 	{
 		type fp struct{ file, recv, name string }
